@@ -634,6 +634,8 @@ def c19(run):
     for l in open(out):
         for body, exp, rec in go.cases(json.loads(l)):
             ps.add(body, exp, rec)
+    for body, exp, rec in go.side_effect_cases():
+        ps.add(body, exp, rec)
     for body, exp, rec in go.try_cases():
         ps.add(body, exp, rec)
     ps.execute()
